@@ -431,6 +431,23 @@ Definition inv_store_l (u : list node * (N * bool) -> bool) (x : inv_input_l) : 
 (** the anti-inverse cache: the second component is (0, for_un) — [anti_inverse_impl] tries fewer
     patterns when the inverse is for un (un.rs:139); before 261768c the key did not feed it *)
 Definition anti_key_pre (x : inv_input) : list node := map deep (fst x).
+(** the under cache by itself (under.rs:30-68): the table is keyed by the TUPLE
+    (hash_deep of the nodes, g_sig, inverse) — the two extra arguments are stored verbatim, not
+    hashed; [under_inverse_impl] passes them to every pattern (under.rs:85) *)
+Definition under_input : Type := list node * (N * bool).            (* nodes, (g_sig, inverse) *)
+Definition under_key (x : under_input) : list node * (N * bool) := (map deep (fst x), snd x).
+Definition under_deps (x : under_input) : list node * (N * bool) := (map no_origin (fst x), snd x).
+(** the anti cache by itself (un.rs:99-129): the hash feeds [for_un] FIRST, then hash_deep of each
+    node; [anti_inverse_impl] tries fewer patterns when [for_un] (un.rs:146) *)
+Definition anti_input : Type := list node * bool.                   (* nodes, for_un *)
+Definition anti_key (x : anti_input) : bool * list node := (snd x, map deep (fst x)).
+Definition anti_deps (x : anti_input) : list node * bool := (map no_origin (fst x), snd x).
+(** all three wrappers (un.rs:62-66, 124-128; under.rs:62-67) store a result only when its making
+    did not take [asm.spans.len() - 1] ([cacheable], invert/mod.rs:53-63): for any key [k] and
+    dependencies [d], the cached function reads [d x] and — where [u (d x)] — the table length *)
+Definition len_f {X D V : Type} (d : X -> D) (u : D -> bool) (g : D -> option N -> V) (x : X * N) : V :=
+  g (d (fst x)) (if u (d (fst x)) then Some (snd x) else None).
+Definition len_store {X D : Type} (d : X -> D) (u : D -> bool) (x : X * N) : bool := negb (u (d (fst x))).
 (** the key between 25aa9f6 and 7da4086 (no names) *)
 Definition inv_key_pre_names (x : inv_input) : list node * (N * bool) := (map deep_pre (fst x), snd x).
 (** a key that hashes the callee's body instead of its index *)
@@ -509,28 +526,40 @@ Definition zip_key_pre (x : node) : node := erase x.
     the equality of their keys: content hash of the slice (check.rs), content hash of the
     node (tree.rs / pre_eval.rs), inverse key (un.rs / under.rs), fast-function key (zip.rs) *)
 Record tcase := TC { t_x : list node; t_y : list node; t_sig_eq : bool; t_node_eq : bool; t_inv_eq : bool; t_zip_eq : bool;
-                     t_fx : bool; t_fy : bool; t_anti_eq : bool }.   (* for_un of x, of y; equal anti keys *)
+                     t_fx : bool; t_fy : bool; t_anti_eq : bool;      (* for_un of x, of y; equal anti keys *)
+                     t_gx : N; t_gy : N; t_ix : bool; t_iy : bool }.  (* g_sig and inverse flag given to under for x, for y *)
 
 Definition content_eqb (x y : list node) : bool := list_eqb node_eqb (map erase x) (map erase y).
 Definition inv_eqb (x y : list node) : bool := list_eqb node_eqb (map deep x) (map deep y).
 Definition zip_eqb (x y : list node) : bool := list_eqb node_eqb (map shallow x) (map shallow y).
+Definition anti_key_eqb (a b : bool * list node) : bool := Bool.eqb (fst a) (fst b) && list_eqb node_eqb (snd a) (snd b).
+Definition under_key_eqb (a b : list node * (N * bool)) : bool :=
+  list_eqb node_eqb (fst a) (fst b) && N.eqb (fst (snd a)) (fst (snd b)) && Bool.eqb (snd (snd a)) (snd (snd b)).
 
 Definition tcase_ok (c : tcase) : bool :=
   Bool.eqb (content_eqb (t_x c) (t_y c)) (t_sig_eq c) &&
   Bool.eqb (content_eqb (t_x c) (t_y c)) (t_node_eq c) &&
   Bool.eqb (inv_eqb (t_x c) (t_y c)) (t_inv_eq c) &&
   Bool.eqb (zip_eqb (t_x c) (t_y c)) (t_zip_eq c) &&
-  Bool.eqb (inv_eqb (t_x c) (t_y c) && Bool.eqb (t_fx c) (t_fy c)) (t_anti_eq c).
+  Bool.eqb (anti_key_eqb (anti_key (t_x c, t_fx c)) (anti_key (t_y c, t_fy c))) (t_anti_eq c).
 
 (** the model's verdicts on a pair, for the dependency tie: same inverse modulo handles
     ([no_names] also forgetting the index: [with_spans]) / same [sig_deps] / identical,
-    and same inverse key (1 = same) *)
+    same inverse key, same under key (1 = same) *)
 Definition deps_eq (c : tcase) : list N :=
   map (fun b : bool => if b then 1 else 0)
   [ list_eqb node_eqb (map with_spans (t_x c)) (map with_spans (t_y c));
     list_eqb node_eqb (map sig_deps (t_x c)) (map sig_deps (t_y c));
     list_eqb node_eqb (t_x c) (t_y c);
-    inv_eqb (t_x c) (t_y c) ].
+    inv_eqb (t_x c) (t_y c);
+    under_key_eqb (under_key (t_x c, (t_gx c, t_ix c))) (under_key (t_y c, (t_gy c, t_iy c))) ].
+
+(** one store case: a real slice, the length of its assembly's spans table, and whether the real
+    inversion of it reads that length (measured: the fresh result changes with the length);
+    the model's verdict: is the result put into the table (1) *)
+Record scase := SC { s_x : list node; s_len : N; s_reads : bool }.
+Definition scase_stored (c : scase) : N :=
+  if len_store inv_deps_named (fun _ => s_reads c) ((s_x c, (0, false)), s_len c) then 1 else 0.
 
 Fixpoint failing_from {A} (ok : A -> bool) (i : N) (l : list A) : list N :=
   match l with
